@@ -605,6 +605,12 @@ func main() {
 		}
 		scenarios = append(scenarios, []string{"R1", "R1+G"}, []string{"R2", "R1+G"}, []string{"R1", "R1", "G"}, []string{"R1", "R1", "C"}, []string{"R1", "R2", "W", "C"}, []string{"R1", "C", "D"}, []string{"R2", "W", "D"}, []string{"X", "Y"}, []string{"X", "Y", "C"}, []string{"X", "Y", "R1"})
 	}
+	if v := os.Getenv("C02_SCENARIOS"); v != "" { // a part that runs its own scenario list: "R1,R2;R1,R2,G"
+		scenarios = nil
+		for _, sc := range strings.Split(v, ";") {
+			scenarios = append(scenarios, strings.Split(sc, ","))
+		}
+	}
 	bound := 2
 	if f.Thorough() {
 		bound = 3
